@@ -917,6 +917,13 @@ func suiteLiterals(r *Rng, n int, thorough bool, o *Out) {
 	ssx := sxSSchema(ts)
 	// the same type as the struct a user would declare for it (its ID comes from an embedded
 	// struct), built with BuildType: a third of the literals are read into it
+	// (another struct declaring the same type name was wrapped earlier in this process:
+	// what a struct type is never depends on another struct's)
+	type otherT struct {
+		ID    string `json:"id" api:"t"`
+		Other int    `json:"other-field" api:"attr"`
+	}
+	guard(func() { _ = jsonapi.Wrap(&otherT{}) })
 	sB := &jsonapi.Schema{}
 	ssxB := ""
 	if bt, err := jsonapi.BuildType(reflect.New(structTypeFor(typ)).Interface()); err == nil && sxType(stripNewFunc(bt)) == sxType(typ) {
